@@ -1,10 +1,34 @@
-from jsim.envs.base import Adapter
+"""PacMan: rules written from docs/environments/pac_man.md and the class docstring.
+
+Fixed 31 x 28 maze. State conventions (learned from types/generator, not from the step logic): `grid[row, col]`
+is 1 on corridor cells and 0 on walls; `player_locations` is `Position(x=row, y=col)`; `ghost_locations`,
+`pellet_locations`, `power_up_locations` hold `(col, row)` pairs and an eaten pellet / power-up row is
+zeroed to (0, 0) (a wall cell). Five actions; the *implemented* displacement per index is 0: row-1, 1: col-1,
+2: row+1, 3: col+1, 4: none (the docstring calls 1 "right" and 3 "left": naming is not judged). Leaving the
+maze through the open ends of the tunnel row re-enters on the other side. A move into a wall is ignored (the
+player stays); the no-op is masked by design. The game ends when all pellets are collected, when the player
+touches a ghost outside scatter mode, or at the time limit.
+"""
+from __future__ import annotations
+
+from collections import deque
+from typing import Any, List, Optional, Tuple
+
+import numpy as np
+
 from jsim.envs._mk import cfg, cross_tl
+from jsim.envs.base import Adapter
+
+DELTA = [(-1, 0), (0, -1), (1, 0), (0, 1), (0, 0)]  # (d_row, d_col) per action index
 
 
 class A(Adapter):
     name = "PacMan"
     mask_mode = "flat"
+    has_reaction = True
+    has_invalid_effect = True
+    has_physical = True
+    has_observer = True
 
     def configs(self):
         base = [cfg("default", True, tl=None)]
@@ -16,3 +40,194 @@ class A(Adapter):
 
     def time_limit(self, env, c):
         return 1000 if c.get("tl") is None else c["tl"]
+
+    # ---- helpers ---------------------------------------------------------------------------------
+    @staticmethod
+    def _player(s: Any) -> Tuple[int, int]:
+        """(row, col) of the player."""
+        return int(s.player_locations.x), int(s.player_locations.y)
+
+    @staticmethod
+    def _target(grid: np.ndarray, rc: Tuple[int, int], a: int) -> Tuple[int, int]:
+        R, C = grid.shape
+        return (rc[0] + DELTA[a][0]) % R, (rc[1] + DELTA[a][1]) % C
+
+    # ---- C04 -------------------------------------------------------------------------------------
+    def legal(self, s: Any, env: Any) -> np.ndarray:
+        g = np.asarray(s.grid)
+        rc = self._player(s)
+        out = np.zeros(5, bool)
+        for a in range(4):
+            r, c = self._target(g, rc, a)
+            out[a] = g[r, c] == 1
+        return out  # out[4] (no-op) is never legal: masked by design
+
+    def describe(self, s, env, idx):
+        g = np.asarray(s.grid)
+        rc = self._player(s)
+        a = int(idx[0])
+        t = self._target(g, rc, a)
+        return f"player (row, col)={rc}, action {a} targets {t} with grid value {int(g[t])}"
+
+    def reaction_invalid(self, ps, action, agent, s, ts, env, cfg):
+        # ignore-invalid env: the move was treated as invalid iff the player did not move (a legal move always
+        # changes the cell; the no-op never does).
+        return self._player(s) == self._player(ps)
+
+    # ---- C05 -------------------------------------------------------------------------------------
+    def _touches_ghost(self, ps: Any, s: Any) -> bool:
+        """Player and a ghost share a cell, or pass through each other, during this transition. The docs only say
+        "touches"; every pairing of old/new cells is accepted as a touch (old_ghost_locations included)."""
+        pl = {self._player(ps)[::-1], self._player(s)[::-1]}  # as (col, row)
+        gh = set()
+        for arr in (ps.ghost_locations, s.ghost_locations, ps.old_ghost_locations):
+            for row in np.asarray(arr):
+                gh.add((int(row[0]), int(row[1])))
+        return bool(pl & gh)
+
+    @staticmethod
+    def _live(arr: Any) -> np.ndarray:
+        return np.asarray(arr).any(axis=1)
+
+    def _end_allowed(self, ps, s, env, cfg) -> Optional[str]:
+        if int(s.step_count) >= self.time_limit(env, cfg):
+            return "time_limit"
+        if int(ps.frightened_state_time) <= 0 and self._touches_ghost(ps, s):
+            return "ghost"
+        if int(self._live(s.pellet_locations).sum()) == 0:
+            return "all_pellets"
+        return None
+
+    def invalid_effect(self, ps, action, illegal, s, ts, env, cfg):
+        a = int(action)
+        old, new = self._player(ps), self._player(s)
+        ok_cells = {old}
+        if a == 4:
+            # the docs say a no-op repeats the last direction, the code stands still (DESIGN 5, known non-violation):
+            # both are accepted.
+            g = np.asarray(ps.grid)
+            ld = int(ps.last_direction)
+            if 0 <= ld < 4:
+                t = self._target(g, old, ld)
+                if g[t] == 1:
+                    ok_cells.add(t)
+        if new not in ok_cells:
+            return ("player_moved_on_invalid_action", f"player went from {old} to {new} on blocked/no-op action {a}")
+        if int(ts.step_type) == 2 and self._end_allowed(ps, s, env, cfg) is None:
+            return ("invalid_move_ended_episode", f"LAST after ignored action {a} at step {int(s.step_count)} without ghost contact, "
+                    f"time limit or last pellet (player {new})")
+        if not np.array_equal(np.asarray(s.grid), np.asarray(ps.grid)):
+            return ("grid_changed", "the maze changed on an ignored move")
+        # nothing is eaten on behalf of a move that did not happen: only a pellet / power-up under the player's own
+        # cell may disappear (the start cell carries a pellet that is collected while standing on it).
+        here = (new[1], new[0])
+        for name in ("pellet_locations", "power_up_locations"):
+            before, after = np.asarray(getattr(ps, name)), np.asarray(getattr(s, name))
+            for i in np.flatnonzero((before != after).any(axis=1)):
+                if after[i].any() or (int(before[i][0]), int(before[i][1])) != here:
+                    return ("item_changed_away_from_player", f"{name}[{int(i)}] went {before[i].tolist()} -> {after[i].tolist()} while the "
+                            f"player stayed on (col,row)={here}")
+        return None
+
+    # ---- C07 -------------------------------------------------------------------------------------
+    def physical(self, ps, action, s, ts, env, cfg):
+        g = np.asarray(s.grid)
+        if g.shape != (31, 28):
+            return ("grid_shape", f"{g.shape}")
+        if ps is not None and not np.array_equal(g, np.asarray(ps.grid)):
+            return ("walls_changed", "grid differs from the previous state")
+        r, c = self._player(s)
+        if not (0 <= r < 31 and 0 <= c < 28):
+            return ("player_outside_grid", f"player (row, col)=({r}, {c})")
+        if g[r, c] != 1:
+            return ("player_in_wall", f"player (row, col)=({r}, {c}) is on a wall cell")
+        gl = np.asarray(s.ghost_locations)
+        if gl.shape != (4, 2):
+            return ("ghost_count", f"ghost_locations shape {gl.shape}")
+        for i, (gc, gr) in enumerate(gl.tolist()):
+            if not (0 <= gr < 31 and 0 <= gc < 28):
+                return ("ghost_outside_grid", f"ghost {i} at (col, row)=({gc}, {gr})")
+            if g[gr, gc] != 1:
+                return ("ghost_in_wall", f"ghost {i} at (col, row)=({gc}, {gr}) is on a wall cell")
+        pel = np.asarray(s.pellet_locations)
+        live = self._live(pel)
+        if int(s.pellets) != int(live.sum()):
+            return ("pellet_count", f"pellets={int(s.pellets)} but {int(live.sum())} pellet rows are live")
+        for name, field, arr in (("pellet", "pellet_locations", pel), ("power_up", "power_up_locations", np.asarray(s.power_up_locations))):
+            lv = arr.any(axis=1)
+            cells = [(int(x), int(y)) for x, y in arr[lv]]
+            if len(set(cells)) != len(cells):
+                return (f"{name}_duplicated", f"two live {name} rows share a cell")
+            for (x, y) in cells:
+                if not (0 <= y < 31 and 0 <= x < 28) or g[y, x] != 1:
+                    return (f"{name}_off_corridor", f"live {name} at (col, row)=({x}, {y}) is not on a corridor cell")
+            if ps is not None:
+                before = np.asarray(getattr(ps, field))
+                changed = np.flatnonzero((before != arr).any(axis=1))
+                for i in changed:
+                    if arr[i].any():
+                        return (f"{name}_not_subset_of_initial", f"{name} row {int(i)} changed {before[i].tolist()} -> {arr[i].tolist()} "
+                                f"(items may only disappear)")
+        return None
+
+    # ---- C11 -------------------------------------------------------------------------------------
+    def end_cause(self, ps, action, s, ts, env, cfg):
+        if int(ps.frightened_state_time) <= 0 and self._touches_ghost(ps, s):
+            return "ghost"
+        if int(self._live(s.pellet_locations).sum()) == 0:
+            return "all_pellets"
+        return None
+
+    # ---- C12 -------------------------------------------------------------------------------------
+    def observe(self, s, obs, env, cfg):
+        for name in ("grid", "ghost_locations", "power_up_locations", "pellet_locations", "frightened_state_time", "score"):
+            a, b = np.asarray(getattr(obs, name)), np.asarray(getattr(s, name))
+            if a.shape != b.shape or not np.array_equal(a, b):
+                return (name, f"obs.{name} != state.{name}" + (f" (first difference at {np.argwhere(a != b)[0].tolist()})" if a.shape == b.shape and a.ndim else f" ({a.tolist()} vs {b.tolist()})" if a.shape == b.shape else f" shapes {a.shape} vs {b.shape}"))
+        op, sp = obs.player_locations, s.player_locations
+        if int(op.x) != int(sp.x) or int(op.y) != int(sp.y):
+            return ("player_locations", f"obs ({int(op.x)}, {int(op.y)}) vs state ({int(sp.x)}, {int(sp.y)})")
+        if np.asarray(obs.action_mask).shape != (5,):
+            return ("action_mask_shape", f"{np.asarray(obs.action_mask).shape}")
+        return None  # the content of action_mask is C04's business (there is no state copy of it)
+
+    # ---- policies ----------------------------------------------------------------------------------
+    def _dist_from(self, g: np.ndarray, sources: List[Tuple[int, int]]) -> np.ndarray:
+        R, C = g.shape
+        d = np.full((R, C), 10 ** 6, dtype=np.int64)
+        dq = deque()
+        for rc in sources:
+            if 0 <= rc[0] < R and 0 <= rc[1] < C and d[rc] != 0:
+                d[rc] = 0
+                dq.append(rc)
+        while dq:
+            r, c = dq.popleft()
+            for a in range(4):
+                t = self._target(g, (r, c), a)
+                if g[t] == 1 and d[t] > d[r, c] + 1:
+                    d[t] = d[r, c] + 1
+                    dq.append(t)
+        return d
+
+    def policy_survive(self, s, env, rng, legal):
+        """Move (legally) to the neighbouring cell from which the player reaches the largest territory before any
+        ghost does (ghosts are harmless in scatter mode)."""
+        if legal is None or not legal[:4].any():
+            return None
+        g = np.asarray(s.grid)
+        ghosts = [(int(r), int(c)) for c, r in np.asarray(s.ghost_locations).tolist()]
+        d = self._dist_from(g, ghosts)
+        rc = self._player(s)
+        scared = int(s.frightened_state_time) > 1
+        stale = {(int(r), int(c)) for c, r in np.asarray(s.old_ghost_locations).tolist()}  # cells ghosts just left also count as contact
+        best, best_a = None, None
+        for a in [int(x) for x in rng.permutation(4)]:
+            if not legal[a]:
+                continue
+            t = self._target(g, rc, a)
+            dp = self._dist_from(g, [t])
+            territory = int(((dp + 1 < d) & (g == 1)).sum())
+            score = (1 if (scared or (d[t] >= 2 and t not in stale)) else 0, 1 if (scared or d[t] >= 3) else 0, territory, min(int(d[t]), 30))
+            if best is None or score > best:
+                best, best_a = score, a
+        return best_a
